@@ -298,7 +298,58 @@ def translate():
                     if isinstance(tg, ast.Name):
                         class_level.append((cname, tg.id))
     class_level = sorted(set(class_level))
-    facts['ast'] = dict(class_level=class_level,header_sep=ru[0], header_max=ru[1], proxy_sep=pru[0], proxy_max=pru[1],
+    # ---- exception-handler structure (C07/C09/C13/C14) ----------------------------------------
+    def handler_names(try_node):
+        out = []
+        for h in try_node.handlers:
+            out.append(ast.unparse(h.type) if h.type is not None else 'BaseException')
+        return out
+
+    def calls_in(nodes):
+        out = []
+        for n in nodes:
+            for c in ast.walk(n):
+                if isinstance(c, ast.Call):
+                    out.append(ast.unparse(c.func))
+        return out
+
+    run_fn = find_func(se_cls, 'run') if se_cls else None
+    run_tries = [n for n in ast.walk(run_fn) if isinstance(n, ast.Try)] if run_fn else []
+    run_tries.sort(key=lambda n: n.lineno)
+    structure = dict(run_tries=[], feed_handlers=[], write_checks=[], send_pong_handlers=[], auto_ping_handlers=[],
+                     send_close_handlers=[], sendall_under_lock=False, connected_yield_in_try=False)
+    for tnode in run_tries:
+        structure['run_tries'].append(dict(handlers=handler_names(tnode), has_else=bool(tnode.orelse),
+                                           finally_calls=calls_in(tnode.finalbody)))
+    if run_tries:
+        last = run_tries[-1]
+        for n in ast.walk(ast.Module(body=last.body, type_ignores=[])):
+            if isinstance(n, ast.Yield) and isinstance(n.value, ast.Call) and ast.unparse(n.value.func).endswith('Connected'):
+                structure['connected_yield_in_try'] = True
+    feed_fn = find_func(ws_cls, 'feed') if ws_cls else None
+    for n in (ast.walk(feed_fn) if feed_fn else []):
+        if isinstance(n, ast.Try) and len(n.handlers) >= 2:
+            structure['feed_handlers'] = handler_names(n)
+    write_fn = find_func(se_cls, 'write') if se_cls else None
+    for n in (ast.walk(write_fn) if write_fn else []):
+        if isinstance(n, ast.With) and any('_lock' in ast.unparse(i.context_expr) for i in n.items):
+            for st in n.body:
+                if isinstance(st, ast.If):
+                    raised = [ast.unparse(r.exc.func) for r in ast.walk(st) if isinstance(r, ast.Raise) and isinstance(r.exc, ast.Call)]
+                    structure['write_checks'].append((ast.unparse(st.test), raised[0] if raised else '?'))
+            structure['sendall_under_lock'] = any('sendall' in c for c in calls_in(n.body))
+    for name, key in (('_send_pong', 'send_pong_handlers'), ('_check_auto_ping', 'auto_ping_handlers')):
+        fn = find_func(se_cls, name) if se_cls else None
+        for n in (ast.walk(fn) if fn else []):
+            if isinstance(n, ast.Try):
+                structure[key] = handler_names(n)
+    fn = find_func(ws_cls, '_send_close') if ws_cls else None
+    for n in (ast.walk(fn) if fn else []):
+        if isinstance(n, ast.Try):
+            structure['send_close_handlers'] = handler_names(n)
+    if not structure['run_tries'] or not structure['feed_handlers'] or not structure['write_checks']:
+        problems.append('handler structure of session.run / websocket.feed / session.write not found')
+    facts['ast'] = dict(structure=structure, class_level=class_level,header_sep=ru[0], header_max=ru[1], proxy_sep=pru[0], proxy_max=pru[1],
                         texts=texts, state_attrs=state_attrs, ws_writes=ws_method_writes,
                         session_writes=se_writes, stream_writes=st_writes, fp_writes=fp_writes,
                         parser_writes=pa_writes, persist_kw=persist_kw,
@@ -411,6 +462,19 @@ def resetAssignsState : Bool := {'true' if reset_assigns_state else 'false'}
 def connectNewSession : Bool := {'true' if connect_new_session else 'false'}
 /-- class-level assignments of freshly constructed objects in the stateful classes: (class, name) -/
 def classLevelObjects : List (String × String) := [{', '.join('(%s, %s)' % (lean_str(a), lean_str(b)) for a, b in class_level)}]
+/-- `try` statements of `WebsocketSession.run` in source order: (except types, has else, calls in finally) -/
+def runTries : List (List String × Bool × List String) :=
+  [{', '.join('([%s], %s, [%s])' % (', '.join(lean_str(h) for h in tr['handlers']), 'true' if tr['has_else'] else 'false', ', '.join(lean_str(c) for c in tr['finally_calls'])) for tr in structure['run_tries'])}]
+/-- the `Connected` event is yielded inside the last `try` of `run` (so its `finally` covers it) -/
+def connectedYieldInTry : Bool := {'true' if structure['connected_yield_in_try'] else 'false'}
+/-- `except` types of `WebSocket.feed`'s `try`, in order -/
+def feedHandlers : List String := [{', '.join(lean_str(h) for h in structure['feed_handlers'])}]
+/-- guards of `WebsocketSession.write` inside `with self._lock`, in order: (test, raised class) -/
+def writeChecks : List (String × String) := [{', '.join('(%s, %s)' % (lean_str(a), lean_str(b)) for a, b in structure['write_checks'])}]
+def sendallUnderLock : Bool := {'true' if structure['sendall_under_lock'] else 'false'}
+def sendPongHandlers : List String := [{', '.join(lean_str(h) for h in structure['send_pong_handlers'])}]
+def autoPingHandlers : List String := [{', '.join(lean_str(h) for h in structure['auto_ping_handlers'])}]
+def sendCloseHandlers : List String := [{', '.join(lean_str(h) for h in structure['send_close_handlers'])}]
 /-- keyword arguments `persist` forwards to `connect`: (keyword, variable) -/
 def persistConnectKw : List (String × String) := [{', '.join('(%s, %s)' % (lean_str(a), lean_str(b)) for a, b in persist_kw)}]
 
